@@ -149,6 +149,11 @@ def check_deletions(ctx, rule: str) -> None:
             scenarios.append(("double_gene_deletion", "gene", method, objects, [None, ["gD", "gA"]]))
             scenarios.append(("double_gene_deletion", "gene", method, objects, [None, None]))
             scenarios.append(("double_gene_deletion", "gene", method, objects, [["gA", "gB"], ["gB", "gD", "gA"]]))
+    # an explicitly empty list requests nothing (it is not the same as an omitted one)
+    scenarios.append(("single_reaction_deletion", "reaction", "fba", False, [[]]))
+    scenarios.append(("single_gene_deletion", "gene", "fba", False, [[]]))
+    scenarios.append(("double_reaction_deletion", "reaction", "fba", False, [["R1", "R2"], []]))
+    scenarios.append(("double_gene_deletion", "gene", "fba", True, [[], ["gA"]]))
     for fname, kind, method, objects, lists in scenarios:
         model = _model()
         oracle: _Oracle = model.script
